@@ -2,6 +2,9 @@
    substring is repeated more than min_rep times and has at least min_len graphemes. *)
 From Grex Require Import Base.Str Model.Config Model.Cluster Model.Dfa Model.Expr Model.Pipeline.
 From Grex Require Import Proofs.RepInv Proofs.Provenance Proofs.ProvenanceInst Proofs.PropsGlue.
+From Grex Require Import Engine.Syntax Engine.Parse.
+From Grex Require Import Proofs.Spec Proofs.PrintParseNum Proofs.PrintParseDefs Proofs.PrintParseXTok
+  Proofs.PropsGlueE2E.
 
 (* every grapheme g of a literal of the final expression (lit_in g e): either it is not
    repeated, or its upper bound exceeds min_rep and its unit has at least min_len characters *)
@@ -36,7 +39,30 @@ Proof.
   - intros (H1 & H2 & H3). constructor; assumption.
 Qed.
 
+(* the repetitions of the parsed output (notions: Props/C01.v (f); rast_sub x r: x occurs in
+   r, Proofs/PropsGlueE2E.v): every repetition operator is `*`, `?` or a counted {lo,b} with
+   1 <= lo <= b and (lo,b) <> (1,1) -- braces are never written for a (1,1) grapheme, and
+   there is no `+`, no open-ended {n,} and no {0,...} *)
+Theorem C13_braces_shape : forall isd is_ws c db sc ws s,
+  ws <> [] ->
+  Forall (Forall scalar) ws ->
+  (forall s0, In s0 ws -> Forall scalar (lower' db s0)) ->
+  oracle_ok db (normalise c db ws) ->
+  printable c -> (if f_verbose c then ws_x is_ws else ws_ok is_ws) ->
+  build isd c db sc ws = Some s ->
+  exists r, parse is_ws s = Some (mkF (f_ci c) (f_verbose c), r)
+    /\ forall r' lo hi, rast_sub (RRep r' lo hi) r ->
+          (lo = 0%N /\ hi = None) \/ (lo = 0%N /\ hi = Some 1%N)
+          \/ exists b, hi = Some b /\ (1 <= lo)%N /\ (lo <= b)%N /\ ~ (lo = 1%N /\ b = 1%N).
+Proof.
+  intros isd is_ws c db sc ws s Hne Hsc Hlow Hok Hp Hws H.
+  destruct (build_shape_any isd is_ws c db sc ws s Hne Hsc Hlow Hok Hp Hws H)
+    as (r & Hr & _ & Hrep & _).
+  exists r. split; [exact Hr|exact Hrep].
+Qed.
+
 Print Assumptions C13_thresholds.
 Print Assumptions C13_no_braces.
 Print Assumptions C13_clusters.
 Print Assumptions C13_thr_ok_unfold.
+Print Assumptions C13_braces_shape.
